@@ -492,9 +492,27 @@ def _gen_c18(rng, tier, i):
     flags = {"include_drf": rng.random() < 0.8, "include_dmd": rng.random() < 0.8,
              "include_drf_properties": tri(), "include_dmd_properties": tri()}
     chs = []
-    if rng.random() < 0.5:
+    if rng.random() < 0.6:
         top = sorted(set(e["p"].split("/")[0] for e in entries)) + [r["cfg"]["channel"] for r in recs]
-        chs = rng.sample(top, min(len(top), rng.randrange(1, 3)))
+        nested = sorted(set(os.path.dirname(e["p"]) for e in entries if e["p"].count("/") >= 2 and e["t"] == "f"
+                            and not RE_SUBDIR.match(os.path.basename(os.path.dirname(e["p"])))))
+        chs = rng.sample(top + nested[:3], min(len(top), rng.randrange(1, 3)))
+        # channel arguments must not contain one another (the transfers would overlap)
+        chs = [c for c in chs if not any(o != c and (c + "/").startswith(o + "/") for o in chs)]
+        # the channel option is free text: trailing slash (tab completion), ./ prefix, doubled slash, comma lists
+        deco = []
+        for c in chs:
+            r = rng.random()
+            if r < 0.2:
+                c = c + "/"
+            elif r < 0.35:
+                c = "./" + c
+            elif r < 0.45 and "/" in c:
+                c = c.replace("/", "//", 1)
+            deco.append(c)
+        chs = deco
+        if len(chs) == 2 and rng.random() < 0.3:
+            chs = [",".join(chs)]
     plan = {"engine": "lssim", "tree": entries, "recs": recs, "cmd": cmd, "flags": flags, "chs": chs,
             "only": rng.random() < 0.2, "reverse": rng.random() < 0.3, "symbolic": cmd == "ln" and rng.random() < 0.5,
             "start": None, "end": None, "readdir_seed": rng.randrange(2**32)}
@@ -574,7 +592,8 @@ def _run_c18(plan, res, sc):
     # expectation from the equivalent listing (on the pristine copy)
     kw = dict(recursive=not plan["only"], reverse=plan["reverse"], starttime=_dt(plan["start"]), endtime=_dt(plan["end"]),
               **plan["flags"])
-    pairs = [(c, c) for c in plan["chs"]] or [("", "")]
+    chlist = [b.strip() for a_ in plan["chs"] for b in a_.strip().split(",")]
+    pairs = [(c, c) for c in chlist] or [("", "")]
     expected = {}
     for c, _ in pairs:
         sdir = os.path.join(pristine, c) if c else pristine
@@ -591,7 +610,7 @@ def _run_c18(plan, res, sc):
         except SystemExit as e:
             raise K.HarnessError("drf %s exited: %s" % (args, e))
         except Exception as e:  # noqa
-            if any(not os.path.isdir(os.path.join(src, c)) for c in plan["chs"]):
+            if any(not os.path.isdir(os.path.join(src, c)) for c in chlist):
                 res.probe("missing_channel_argument")
                 return
             res.violate("C18", "command_raises", "drf %s raised %s: %s" % (" ".join(args[:1] + args[3:]), type(e).__name__, str(e)[:200]),
